@@ -17,6 +17,7 @@ import (
 	"sync/atomic"
 	"time"
 
+	"github.com/nuetzliches/hookaido/internal/verifhook"
 	sqlite3 "modernc.org/sqlite"
 )
 
@@ -443,6 +444,7 @@ CREATE TABLE IF NOT EXISTS schema_migrations (
 	}
 
 	for v := current + 1; v <= schemaVersion; v++ {
+		verifhook.Point("sqlite.migrate.step")
 		switch v {
 		case 1:
 			if _, err := conn.ExecContext(ctx, schemaV1); err != nil {
@@ -550,6 +552,7 @@ func (s *SQLiteStore) Enqueue(env Envelope) error {
 		return s.enqueueWithLimit(env, headersJSON, traceJSON)
 	}
 
+	verifhook.Point("sqlite.enqueue.before_insert")
 	startedAt := time.Now()
 	_, err = s.db.ExecContext(context.Background(), `
 INSERT INTO queue_items (
@@ -577,6 +580,7 @@ INSERT INTO queue_items (
 		return mapQueueInsertError(err)
 	}
 
+	verifhook.Point("sqlite.enqueue.after_insert")
 	s.observeSQLiteTx(sqliteTxClassWrite, startedAt, true)
 	s.signal()
 	return nil
@@ -593,6 +597,7 @@ func (s *SQLiteStore) enqueueWithLimit(env Envelope, headersJSON any, traceJSON 
 		}
 	}
 
+	verifhook.Point("sqlite.enqueue.after_fastpath")
 	ctx := context.Background()
 	conn, err := s.db.Conn(ctx)
 	if err != nil {
@@ -827,6 +832,7 @@ func (s *SQLiteStore) EnqueueBatch(items []Envelope) (int, error) {
 
 	// Insert all items.
 	for _, p := range prepared {
+		verifhook.Point("sqlite.batch.insert")
 		_, err := conn.ExecContext(ctx, `
 INSERT INTO queue_items (
   id, route, target, state, received_at, attempt, next_run_at,
@@ -957,6 +963,7 @@ func (s *SQLiteStore) Dequeue(req DequeueRequest) (DequeueResponse, error) {
 	if err := s.maybePrune(pruneNow); err != nil {
 		return DequeueResponse{}, err
 	}
+	verifhook.Point("sqlite.dequeue.after_prune")
 
 	batch := req.Batch
 	if batch <= 0 {
@@ -1557,8 +1564,10 @@ func (s *SQLiteStore) withLeaseMutation(
 	}
 	defer conn.Close()
 
+	verifhook.Point("sqlite.lease.before")
 	startedAt := time.Now()
 	affected, err := mutate(ctx, conn, now, leaseID)
+	verifhook.Point("sqlite.lease.after")
 	if err != nil {
 		s.observeSQLiteError(err)
 		s.observeSQLiteTx(sqliteTxClassWrite, startedAt, false)
@@ -2278,6 +2287,7 @@ func (s *SQLiteStore) CancelMessagesByFilter(req MessageManageFilterRequest) (Me
 			PreviewOnly: true,
 		}, nil
 	}
+	verifhook.Point("sqlite.filter.selected")
 	resp, err := s.CancelMessages(MessageCancelRequest{IDs: ids})
 	if err != nil {
 		return MessageCancelResponse{}, err
@@ -2304,6 +2314,7 @@ func (s *SQLiteStore) ResumeMessagesByFilter(req MessageManageFilterRequest) (Me
 			PreviewOnly: true,
 		}, nil
 	}
+	verifhook.Point("sqlite.filter.selected")
 	resp, err := s.ResumeMessages(MessageResumeRequest{IDs: ids})
 	if err != nil {
 		return MessageResumeResponse{}, err
@@ -2330,6 +2341,7 @@ func (s *SQLiteStore) RequeueMessagesByFilter(req MessageManageFilterRequest) (M
 			PreviewOnly: true,
 		}, nil
 	}
+	verifhook.Point("sqlite.filter.selected")
 	resp, err := s.RequeueMessages(MessageRequeueRequest{IDs: ids})
 	if err != nil {
 		return MessageRequeueResponse{}, err
@@ -3091,17 +3103,20 @@ func (s *SQLiteStore) beginImmediateWithRetry(ctx context.Context, conn *sql.Con
 			}
 			return time.Time{}, err
 		}
+		verifhook.Point("sqlite.begin")
 		return time.Now(), nil
 	}
 	return time.Time{}, errors.New("sqlite: begin immediate retry exhausted")
 }
 
 func (s *SQLiteStore) commitTx(ctx context.Context, conn *sql.Conn, startedAt time.Time, class sqliteTxClass) error {
+	verifhook.Point("sqlite.before_commit")
 	if _, err := conn.ExecContext(ctx, "COMMIT;"); err != nil {
 		s.observeSQLiteError(err)
 		s.observeSQLiteTx(class, startedAt, false)
 		return err
 	}
+	verifhook.Point("sqlite.after_commit")
 	s.observeSQLiteTx(class, startedAt, true)
 	return nil
 }
@@ -3182,6 +3197,7 @@ func (s *SQLiteStore) observeSQLiteCheckpoint(duration time.Duration, err error)
 }
 
 func (s *SQLiteStore) checkpointPassive() error {
+	verifhook.Point("sqlite.checkpoint")
 	startedAt := time.Now()
 	var busyPages int
 	var walPages int
